@@ -197,17 +197,18 @@ def unit(u, res):
             got = 'panic: ' + str(o.value)
         else:
             claim = claim_for(meta, op, o, refcases)
-            verdict, model = pr.prove(name, o.pc, claim)
+            verdict, model = pr.prove(name, o.pc, claim, diversify=diversify_plan([A, B]))
             got = None
         if len(res.samples) < 2:
             res.samples.append(dict(unit=name, overflow_checks=ofc, path_condition=[str(z3.simplify(c))[:160] for c in o.pc[len(cons):]][:4],
                                     outcome=(render_result(meta, o.value)[0] if o.kind == 'return' else 'panic'), verdict=verdict))
         if verdict == 'sat':
-            a_c = spec_concrete(A, model)
-            b_c = spec_concrete(B, model) if B is not None else None
-            res.sat.append(dict(key='op=%s types=%s,%s' % (op, spec_type(A), spec_type(B) if B else '-'), op=op, a=a_c, b=b_c,
-                                overflow_checks=ofc, got=got or str(render_result(meta, o.value, model)),
-                                witness='%s %s %s' % (a_c, SYMBOL[op], b_c)))
+            for mdl in [model] + list(pr.extra_models if o.kind != 'panic' else []):
+                a_c = spec_concrete(A, mdl)
+                b_c = spec_concrete(B, mdl) if B is not None else None
+                res.sat.append(dict(key='op=%s types=%s,%s' % (op, spec_type(A), spec_type(B) if B else '-'), op=op, a=a_c, b=b_c,
+                                    overflow_checks=ofc, got=got or str(render_result(meta, o.value, mdl)),
+                                    witness='%s %s %s' % (a_c, SYMBOL[op], b_c)))
 
 
 def replay_ce(ce):
